@@ -74,7 +74,6 @@ var semMethods = []string{
 	"Format", "Sub", "Before", "After", "Equal", "Unix", "Hour", "Month", "Weekday", "Clock", "Date", "Hours", "Seconds", "Milliseconds", "Nanoseconds", "Minutes", "SleepUntil", "a", "b", "c", "p", "x", "Missing",
 }
 
-
 // semSigs gives, for the functions whose parameters have a fixed shape, the
 // kinds expected (s string, n integer, f float, b bool, a array, m map,
 // c complex, F function value, t time, d duration, x anything). Three calls in
